@@ -318,8 +318,28 @@ static uint64_t system_digest(int rank, lp_id_t me)
 }
 
 /* ------------------------------------------------------------------ wrappers (cross-module calls of the core) */
+/* ------------------------------------------------------------------ drv: one worker driven by the harness
+ * The harness plays the rest of the world for a single worker thread: every message the runtime inserts is held back and
+ * delivered later in an order drawn from the decision stream (so stragglers and late anti-messages are the norm), and the GVT is
+ * announced at arbitrary instants with any legal value (at most the smallest timestamp still unprocessed or held). */
+#define HELD_MAX 4096
+static struct lp_msg *held[HELD_MAX], *inq[HELD_MAX];
+static unsigned held_n, inq_n;
+static bool drv_mode, drv_releasing;
+static uint64_t drv_released, drv_gvts, drv_stragglers_hint;
+
 void verif_wrap_msg_queue_insert(struct lp_msg *msg)
 {
+	if(drv_mode && !drv_releasing) {
+		if(held_n >= HELD_MAX)
+			sim_finish("skip");
+		for(unsigned i = 0; i < held_n; i++)
+			if(held[i] == msg)
+				sim_violation("C06", "double-insert", "message %p (t=%g) inserted while already queued", (void *)msg, msg->dest_t);
+		held[held_n++] = msg;
+		sim_event(0x32, msg->dest, dbl_bits_(msg->dest_t));
+		return;
+	}
 	M.n_insert++;
 	pend_add(msg);
 	sim_event(0x30, msg->dest, dbl_bits_(msg->dest_t));
@@ -334,6 +354,12 @@ struct lp_msg *verif_wrap_msg_queue_extract(void)
 		ea_on_extract(m);
 	if(!m)
 		return m;
+	if(drv_mode)
+		for(unsigned i = 0; i < inq_n; i++)
+			if(inq[i] == m) {
+				inq[i] = inq[--inq_n];
+				break;
+			}
 	sim_progress();
 	M.n_extract++;
 	pend_del(m);
@@ -891,6 +917,11 @@ void verif_hook_msg_free(struct lp_msg *msg)
 		e->ea_state = 0;
 	}
 	if(!P.serial) {
+		if(drv_mode)
+			for(unsigned i = 0; i < held_n; i++)
+				if(held[i] == msg)
+					sim_violation("C06", "released-while-queued", "message %p (t=%g, LP %llu) released while it is on its way to a thread's queue",
+					    (void *)msg, msg->dest_t, (unsigned long long)msg->dest);
 		struct pend_ent *pe = pend_find(msg);
 		if(pe) {
 			/* shutdown discards what is still queued for the finalising thread: by design */
@@ -1024,6 +1055,138 @@ static void resolve_statics(void)
 
 static void final_checks(void);
 
+static double drv_lower_bound(void)
+{
+	double mn = __builtin_inf();
+	for(unsigned i = 0; i < held_n; i++)
+		mn = held[i]->dest_t < mn ? held[i]->dest_t : mn;
+	for(unsigned i = 0; i < inq_n; i++)
+		mn = inq[i]->dest_t < mn ? inq[i]->dest_t : mn;
+	return mn;
+}
+
+static int drv_draw(int n)
+{
+	int v = 0;
+	if(!G.replay)
+		v = (int)prng_below(&G.dec_rng, (uint64_t)n);
+	return sim_commit(DK_FAULT, n, v);
+}
+
+static void *drv_main(void *arg)
+{
+	(void)arg;
+	struct rank_api *rk = &RK[0];
+	struct simulation_configuration conf;
+	memset(&conf, 0, sizeof(conf));
+	conf.lps = (lp_id_t)P.n_lps;
+	conf.n_threads = 1;
+	conf.termination_time = 0;
+	conf.gvt_period = 1000;
+	conf.log_level = LOG_SILENT;
+	conf.ckpt_interval = (unsigned)P.ckpt_interval;
+	conf.prng_seed = (uint64_t)P.prng_seed;
+	conf.dispatcher = model_dispatch;
+	conf.committed = model_can_end;
+	if(rk->RootsimInit(&conf))
+		sim_violation("C08", "init-failed", "RootsimInit failed");
+	/* what parallel_global_init() and worker_thread_init() do for one worker */
+	rk->stats_global_init();
+	rk->lp_global_init();
+	rk->msg_queue_global_init();
+	rk->termination_global_init();
+	rk->gvt_global_init();
+	*rk->p_rid() = 0;
+	rk->stats_init();
+	rk->auto_ckpt_init();
+	rk->msg_allocator_init();
+	rk->msg_queue_init();
+	drv_mode = true;
+	verif_wrap_lp_init();
+	double last_g = 0;
+	uint64_t steps = 0;
+	while(held_n || inq_n) {
+		if(++steps > 400000)
+			sim_violation("C08", "budget-exhausted", "the driven worker does not come to an end");
+		int what = inq_n ? drv_draw(8) : 0;
+		if(!held_n && what < 3)
+			what = 3;
+		if(what < 3) {
+			/* deliver held messages: usually the oldest ones, sometimes an arbitrary one (the others become stragglers) */
+			unsigned k = 1 + (unsigned)drv_draw(3);
+			while(k-- && held_n) {
+				unsigned pick;
+				int mode = drv_draw(4);
+				if(mode == 0) {
+					pick = (unsigned)drv_draw((int)(held_n < 64 ? held_n : 64));
+				} else {
+					pick = 0;
+					for(unsigned i = 1; i < held_n; i++)
+						if(held[i]->dest_t < held[pick]->dest_t || (mode == 1 && held[i]->dest_t == held[pick]->dest_t))
+							pick = i;
+				}
+				struct lp_msg *m = held[pick];
+				held[pick] = held[--held_n];
+				if(inq_n >= HELD_MAX)
+					sim_finish("skip");
+				inq[inq_n++] = m;
+				drv_releasing = true;
+				verif_wrap_msg_queue_insert(m);
+				drv_releasing = false;
+				drv_released++;
+			}
+		} else if(what < 7) {
+			unsigned k = 1 + (unsigned)drv_draw(4);
+			while(k--)
+				rk->process_msg();
+		} else {
+			/* announce a GVT: any value between the last one and the true lower bound is legal */
+			double lb = drv_lower_bound();
+			double g = lb;
+			int slack = drv_draw(4);
+			if(slack == 1 && lb > last_g && lb < 1e300)
+				g = last_g + (lb - last_g) * 0.5;
+			else if(slack == 2 && lb >= 0.5 && lb - 0.5 > last_g)
+				g = lb - 0.5;
+			if(g > 1e300)
+				continue; /* nothing left: the final announcement comes below */
+			if(g > last_g) {
+				last_g = g;
+				drv_gvts++;
+				verif_wrap_termination_on_gvt(g);
+				rk->auto_ckpt_on_gvt();
+				verif_wrap_fossil_on_gvt(g);
+				rk->msg_allocator_on_gvt(g);
+				verif_wrap_stats_on_gvt(g);
+			}
+		}
+	}
+	/* everything has been delivered and processed: the whole history is committed */
+	verif_wrap_termination_on_gvt(SIMTIME_MAX);
+	verif_wrap_fossil_on_gvt(SIMTIME_MAX);
+	rk->msg_allocator_on_gvt(SIMTIME_MAX);
+	drv_mode = false;
+	verif_wrap_lp_fini();
+	M.ranks_returned = 1;
+	return NULL;
+}
+
+static void drv_final_checks(void)
+{
+	lp_id_t n = (lp_id_t)P.n_lps;
+	for(lp_id_t i = 0; i < n; i++) {
+		if(LM[i].init_count != 1 || LM[i].fini_count != 1)
+			sim_violation("C14", "init-count", "LP %llu initialised %d and finalised %d times", (unsigned long long)i, LM[i].init_count,
+			    LM[i].fini_count);
+		if(LM[i].committed != REF[i].n_seq && !LM[i].commit_broken)
+			sim_violation("C03", "committed-short", "LP %llu: %zu events committed at the end, the sequential run delivers %zu",
+			    (unsigned long long)i, LM[i].committed, REF[i].n_seq);
+		if(LM[i].fini_digest != REF[i].digest_final)
+			sim_violation("C01", "final-state", "LP %llu: state at LP_FINI differs from the sequential execution (driven worker)",
+			    (unsigned long long)i);
+	}
+}
+
 void tw_run(void)
 {
 	memset(&M, 0, sizeof(M));
@@ -1044,6 +1207,13 @@ void tw_run(void)
 	model_setup();
 	reference_run();
 	sim_event(0x01, ref_total_events, 0);
+	if(P.engine == 5) {
+		held_n = inq_n = 0;
+		sim_spawn(VTK_WORKER, 0, drv_main, NULL);
+		sim_run_all();
+		drv_final_checks();
+		sim_finish("ok");
+	}
 	for(int r = 0; r < P.n_ranks; r++)
 		sim_spawn(VTK_MAIN, r, rank_main, (void *)(intptr_t)r);
 	if(P.stop_at > 0)
@@ -1328,11 +1498,11 @@ void engine_fill_result(char *buf, size_t n)
 		votes += TC[v].votes;
 	snprintf(buf, n,
 	    "eng=tw ranks=%lld thr=%lld lps=%lld ckpt=%lld gvtp=%lld serial=%lld refev=%zu fw=%llu sil=%llu rb=%llu undone=%llu ck=%llu "
-	    "anti=%llu ins=%llu ext=%llu fossil=%llu committed=%llu gvts=%u votes=%u fgvt=%g stop=%d fin=%016llx maxrb=%llu balloc=%llu bfree=%llu",
+	    "anti=%llu ins=%llu ext=%llu fossil=%llu committed=%llu gvts=%u votes=%u fgvt=%g stop=%d fin=%016llx maxrb=%llu balloc=%llu bfree=%llu drvrel=%llu",
 	    (long long)P.n_ranks, (long long)P.n_threads, (long long)P.n_lps, (long long)P.ckpt_interval, (long long)P.gvt_period,
 	    (long long)P.serial, ref_total_events, (unsigned long long)M.n_forward, (unsigned long long)M.n_silent,
 	    (unsigned long long)M.n_rollbacks, (unsigned long long)M.n_undone, (unsigned long long)M.n_ckpt, (unsigned long long)M.n_anti,
 	    (unsigned long long)M.n_insert, (unsigned long long)M.n_extract, (unsigned long long)M.n_fossil,
 	    (unsigned long long)M.n_committed, M.rounds_known, votes, M.final_gvt > 1e300 ? -1.0 : M.final_gvt, M.stop_called,
-	    (unsigned long long)fin, (unsigned long long)M.max_rb_depth, (unsigned long long)buf_allocs, (unsigned long long)buf_frees);
+	    (unsigned long long)fin, (unsigned long long)M.max_rb_depth, (unsigned long long)buf_allocs, (unsigned long long)buf_frees, (unsigned long long)drv_released);
 }
